@@ -35,7 +35,7 @@ Theorem C13_structured_entry : forall cfg code s e ns ne nk as_ ae target kvs ks
   | Some vs =>
       match line_col code (node_start vs), str_slice code (node_start vs) (node_end vs) with
       | Some (l, c), Some vt =>
-          Emit (mkEntry (node_start vs) l c (parse_u32 (trim is_ws_tab vt)) (short_name name)
+          Emit (mkEntry (node_start vs) l c (ref_value the_params vt) (short_name name)
                         KStructuredPreExisting None None)
       | _, _ => StepPanic
       end
@@ -105,10 +105,11 @@ Theorem C13_structured_statement : forall cfg code pre n a,
   | Some (prev, vt) =>
       (* the FIRST key-value whose key is `ref` and which has a value: the entry is AT that value (byte
          offset / line / column of the text before it), and the value's text -- which runs up to the
-         delimiter -- trimmed and read as u32 is the reference; not an integer => no reference and an
+         delimiter -- without a trailing comment, trimmed and read as u32 is the reference (ref_value);
+         not an integer => no reference and an
          unusable entry (C13_unusable_never_missing): reported, never edited, never a second ref *)
       Emit (mkEntry (blen prev) (fst (line_col_go prev 1 1)) (snd (line_col_go prev 1 1))
-                    (parse_u32 (trim is_ws_tab vt)) (short_name nm) KStructuredPreExisting None None)
+                    (ref_value the_params vt) (short_name nm) KStructuredPreExisting None None)
   | None =>
       (* no such key-value: a new `ref = N` goes directly after the target argument when there is one,
          else directly after the opening bracket; it ends with ", " when key-values exist, "; " when not *)
@@ -155,7 +156,7 @@ Proof. exact stmt_stepA_message. Qed.
      warn!(target: "net", attempts = 3 ; "retry");      new ref after the target, ", "
      error!("boom");                                     new ref after the bracket, "; "
      debug!(target: "x", "plain");                      new ref after the target, "; "
-     info!(a, ref = 7 /* c */; "m");                    the value runs up to the delimiter: unusable (finding F10b)
+     info!(a, ref = 7 /* c */; "m");                    the value's span runs up to the delimiter; the comment is dropped: 7
      warn!(user:? = u.name, n = x + 1, ref = 9; "m");   modifier, expression values; reference 9 found *)
 Definition kv_items : list (lay * item) :=
   [(([], []), IName (mkQ 102 false [(110, false)]));
@@ -194,13 +195,22 @@ Example C13_canonical_nonvacuous :
     (e_pos e2, e_line e2, e_col e2, e_ref e2, e_kind e2, e_suffix e2) = (78, 3, 26, None, KStructuredNew, Some [44; 32]) /\
     (e_pos e3, e_line e3, e_col e3, e_kind e3, e_suffix e3) = (114, 4, 12, KStructuredNew, Some [59; 32]) /\
     (e_pos e4, e_line e4, e_col e4, e_kind e4, e_suffix e4) = (147, 5, 25, KStructuredNew, Some [59; 32]) /\
-    (e_pos e5, e_ref e5, e_kind e5, usable e5) = (176, None, KStructuredPreExisting, false) /\
+    (e_pos e5, e_ref e5, e_kind e5, usable e5) = (176, Some 7, KStructuredPreExisting, true) /\
     (e_pos e6, e_line e6, e_col e6, e_ref e6, e_kind e6) = (237, 7, 45, Some 9, KStructuredPreExisting).
 Proof.
   split.
   - cbn. repeat split; try reflexivity; try exact I; try discriminate; try (eexists; reflexivity); try (cbn; tauto).
   - do 6 eexists. vm_compute. repeat split; reflexivity.
 Qed.
+
+(* ... and followed by blanks AND comments up to the delimiter (the value's span includes them; the text
+   from the first comment opener on is dropped before trimming -- repaired defect F10b): g is empty or
+   begins with a comment opener, as every rendered layout after its white space does *)
+Theorem C13_ref_value_with_layout : forall (n : N) (w g : list N),
+  n <= 4294967295 -> forallb is_ws_tab w = true ->
+  (g = [] \/ exists x, g = 47 :: 42 :: x \/ g = 47 :: 47 :: x) ->
+  ref_value the_params (dec n ++ w ++ g) = Some n.
+Proof. exact ref_value_with_layout. Qed.
 
 (* non-vacuity on real text through the generated grammar: target + two key-values -> after the
    target, comma; none -> semicolon; ref = 12 after another key-value is recognised; ref = x unusable *)
@@ -219,6 +229,7 @@ Proof. cbv zeta. repeat split; eexists; vm_compute; repeat split; reflexivity. Q
 Print Assumptions C13_structured_entry.
 Print Assumptions C13_unusable_never_missing.
 Print Assumptions C13_written_value_is_recognised.
+Print Assumptions C13_ref_value_with_layout.
 Print Assumptions C13_canonical_files.
 Print Assumptions C13_structured_statement.
 Print Assumptions C13_ref_key.
